@@ -1589,6 +1589,8 @@ class MindsDBParser(Parser):
 
     @_('MINUS constant %prec UMINUS')
     def constant(self, p):
+        if isinstance(p.constant.value, bool) or not isinstance(p.constant.value, (int, float)):
+            raise ParsingException(f"Unary minus can't be applied to {p.constant.to_string()}")
         return Constant(-p.constant.value)
 
     # update fields list
